@@ -53,7 +53,7 @@ def eval_case(desc, ctx):
     if desc["k"] == "setup":
         cases, problems, nt = su.eval_setup(desc["setup"], d, [(1, 0)])
         return {"ints": cases, "oracle": "; ".join(problems[:3]) or None, "nontrivial": (desc["seed"], "setup") if nt else None,
-                "kind": "setup-mirror-" + ("rev" if desc["setup"]["rev"] else "fwd"), "observed": {"frames": desc["setup"]["fsteps"]}}
+                "kind": "setup-mirror-" + ("rev" if desc["setup"]["rev"] else "fwd"), "observed": {"frames": desc["setup"]["fsteps"], "adv": su.ADV[int(desc["setup"].get("adv", 0))]}}
     if desc["k"] == "mirror-ef":
         env = desc["env"]
         fwd, _, _ = si.run_forward(d, env, "fwd")
